@@ -28,6 +28,7 @@ inductive Err where
   | cannotFind   -- `Error::CannotFindBlock`
   | decode       -- `Error::CannotDecodeBlock`
   | read         -- `Error::ChunkReadError`
+  | originMissing -- `Error::OriginMissing`
   deriving DecidableEq, Repr
 
 inductive Res (α : Type) where
@@ -121,11 +122,60 @@ def readBlocksFromPoint (all : List (Chunk H)) (slot : Nat) (hash : Option H) : 
   | .ok none => .err .cannotFind
   | .ok (some idx) => iterateTillPoint (readers (names.take (idx + 1))) slot hash
 
+/-- `read_blocks_from_point(dir, Point::Origin)`: the whole chain, provided its first block is the
+    genesis block (`slot() == 0 && number() == 0`, a predicate on the block here); an unreadable first
+    item or an empty database is passed through -/
+def readBlocksFromOrigin (isGenesis : Block H → Bool) (all : List (Chunk H)) : Res (List (Item H)) :=
+  match readBlocks all with
+  | .blk b :: rest => if isGenesis b then .ok (.blk b :: rest) else .err .originMissing
+  | .garbage :: _ => .err .decode
+  | items => .ok items
+
 /-- `get_tip`: last item of the newest immutable chunk -/
 def getTip (all : List (Chunk H)) : Res (Option (Block H)) :=
   match stack all with
   | [] => .ok none
   | c :: _ =>
+    match c.getLast? with
+    | none => .ok none
+    | some (.blk b) => .ok (some b)
+    | some .readErr => .err .read
+    | some .garbage => .err .decode
+
+/-! ## chunks whose files may fail to open
+
+`chunk::read_blocks(dir, name)` itself fails when the primary index cannot be opened (empty file).
+`ChunkReaders` is consumed through `.map_while(Result::ok)`: the first chunk that fails to open
+ends the iteration silently; the comparator of `read_blocks_from_point` turns the failure into
+`ChunkReadError`. A chunk is now `none` (does not open) or `some items`. -/
+
+abbrev FChunk (H : Type) := Option (Chunk H)
+
+/-- `ChunkReaders(..).map_while(Result::ok).flatten()` over a name stack (popped from the end) -/
+def readersF (names : List (FChunk H)) : List (Item H) :=
+  ((names.reverse.takeWhile Option.isSome).filterMap id).flatten
+
+def stackF (all : List (FChunk H)) : List (FChunk H) := all.dropLast.reverse
+
+def readBlocksF (all : List (FChunk H)) : List (Item H) := readersF (stackF all)
+
+def chunkCmpF (slot : Nat) : FChunk H → Res Ordering
+  | none => .err .read
+  | some c => chunkCmp slot c
+
+def readBlocksFromPointF (all : List (FChunk H)) (slot : Nat) (hash : Option H) : Res (List (Item H)) :=
+  let names := stackF all
+  match chunkBinarySearch names (chunkCmpF slot) with
+  | .err e => .err e
+  | .panic => .panic
+  | .ok none => .err .cannotFind
+  | .ok (some idx) => iterateTillPoint (readersF (names.take (idx + 1))) slot hash
+
+def getTipF (all : List (FChunk H)) : Res (Option (Block H)) :=
+  match stackF all with
+  | [] => .ok none
+  | none :: _ => .ok none
+  | some c :: _ =>
     match c.getLast? with
     | none => .ok none
     | some (.blk b) => .ok (some b)
